@@ -123,6 +123,9 @@ func (m *KeyModel) After(w *world.World, a *world.Action, r *world.StepResult) *
 	for n, e := range m.preExists {
 		exists[n] = e
 	}
+	postObs := w.ObserveVals()
+	// a validator that existed before the block but not after it was removed at an unknown point of the block
+	vanished := func(name string) bool { return m.preExists[name] && !postObs[name].Exists }
 
 	var apply func(act world.Action, ok bool, log string, check bool) *Violation
 	apply = func(act world.Action, ok bool, log string, check bool) *Violation {
@@ -190,9 +193,13 @@ func (m *KeyModel) After(w *world.World, a *world.Action, r *world.StepResult) *
 				grey := false
 				if !active(m.phase[c]) {
 					reject = fmt.Sprintf("consumer %s is not active (%s)", c, m.phase[c])
+				} else if vanished(v) {
+					grey = true
 				} else if !exists[v] {
 					reject = "validator " + v + " does not exist"
-				} else if owner := providerKeyOwner(w, exists, addr); owner != "" && owner != v {
+				} else if owner := providerKeyOwner(w, exists, addr); owner != "" && owner != v && vanished(owner) {
+					grey = true
+				} else if owner != "" && owner != v {
 					reject = "key is the provider key of " + owner
 				} else if owner == v && m.cur[c][v] == "" {
 					reject = "own provider key without a previous assignment"
